@@ -517,6 +517,19 @@ func okParamList(nodes []ast.Node) (*token.Token, bool) {
 	return nil, true
 }
 
+// dupParam returns the first parameter name that appears twice, if any (which value it would hold differed
+// between the register and the plain variable paths of the evaluator).
+func dupParam(params []ast.Node) string {
+	for i, a := range params {
+		for _, b := range params[i+1:] {
+			if a.Value().Literal() == b.Value().Literal() {
+				return a.Value().Literal()
+			}
+		}
+	}
+	return ""
+}
+
 func (p *Parser) parseLambdaMulti(left ast.Node, more ...ast.Node) ast.Node {
 	lambda := &ast.FunctionLiteral{IsLambda: true}
 	lambda.Token = p.curToken
@@ -530,6 +543,11 @@ func (p *Parser) parseLambdaMulti(left ast.Node, more ...ast.Node) ast.Node {
 		errLine, lineNum := p.ErrorLine(false)
 		p.errors = append(p.errors, fmt.Sprintf("%d: lambda parameters must be identifiers, not %s\n%s",
 			lineNum, t.Literal(), errLine))
+		return nil
+	}
+	if d := dupParam(lambda.Parameters); d != "" {
+		errLine, lineNum := p.ErrorLine(false)
+		p.errors = append(p.errors, fmt.Sprintf("%d: duplicate parameter name %s\n%s", lineNum, d, errLine))
 		return nil
 	}
 	if t != nil {
@@ -721,6 +739,11 @@ func (p *Parser) parseFunctionParameters() ([]ast.Node, bool) {
 				lineNum, id.Value().Literal(), errLine))
 			return nil, false
 		}
+	}
+	if d := dupParam(identifiers); d != "" {
+		errLine, lineNum := p.ErrorLine(true)
+		p.errors = append(p.errors, fmt.Sprintf("%d: duplicate parameter name %s\n%s", lineNum, d, errLine))
+		return nil, false
 	}
 	return identifiers, (p.prevToken.Type() == token.DOTDOT)
 }
